@@ -199,6 +199,7 @@ def run_case(idx, rng, P, rep):
         c = param.Parameter(default='C', constant=True, allow_refs=True)
         r = param.Number(default=3, readonly=True)
         plain = param.Parameter(default=None)
+        nanp = param.Number(default=float('nan'))       # a default that does not compare equal to itself
         # unchecked selectors accept (and remember) any value - unless they may not be assigned at all
         csel = param.Selector(objects=['k1', 'k2'], check_on_set=False, constant=True)
         rsel = param.ListSelector(objects=[1, 2], default=[1], check_on_set=False, readonly=True)
@@ -290,9 +291,9 @@ def run_case(idx, rng, P, rep):
                        'unchecked-selector'])
     route = rng.choice(['inst', 'inst', 'update1', 'updateN', 'class'])
     if kind == 'plain-invalid':
-        tp = rng.choice(['x', 'y', 's', 'sel'])
+        tp = rng.choice(['x', 'y', 's', 'sel', 'nanp'])
         bad = {'x': rng.choice([99, -1, 'str', float('nan')]), 'y': rng.choice([10, 'str']), 's': rng.choice(['zzz', 5]),
-               'sel': 'outsider'}[tp]
+               'sel': 'outsider', 'nanp': rng.choice(['str', [1]])}[tp]
     elif kind == 'ref-invalid':
         tp = rng.choice(['x', 'y', 's'])
         src = rng.choice([s1, s2])
@@ -345,7 +346,7 @@ def run_case(idx, rng, P, rep):
                 snap[('val', k, p)] = id(getattr(o, p))
             ws = o.param.watchers
             snap[('watchers', k)] = tuple(sorted((p, what, tuple(id(w) for w in lst)) for p, d in ws.items() for what, lst in d.items()))
-        for p in ('x', 'y', 's', 'sel', 'c', 'r', 'plain', 'csel', 'rsel'):
+        for p in ('x', 'y', 's', 'sel', 'c', 'r', 'plain', 'csel', 'rsel', 'nanp'):
             snap[('clsval', p)] = id(getattr(Tgt, p))
             snap[('clsflags', p)] = (Tgt.param[p].constant, Tgt.param[p].readonly)
         return snap
@@ -401,9 +402,9 @@ def run_case(idx, rng, P, rep):
     if len(cls_log) != n_cls:
         viol('watcher-invoked', f'a class-level watcher was invoked during the rejected attempt: {cls_log[n_cls:]}')
     # ---- a subclass that never got a value of its own keeps following its parent class, as before the attempt
-    if route == 'class' and tp in ('x', 'y', 's', 'sel'):
+    if route == 'class' and tp in ('x', 'y', 's', 'sel', 'nanp'):
         rep.count('class_route_follow_probes')
-        probe_v = {'x': 6.5, 'y': 7.5, 's': 'afollow', 'sel': 'w'}[tp]
+        probe_v = {'x': 6.5, 'y': 7.5, 's': 'afollow', 'sel': 'w', 'nanp': 8.5}[tp]
         was = getattr(Tgt, tp)
         try:
             setattr(Tgt, tp, probe_v)
